@@ -4,6 +4,7 @@ use crate::common::udpendpoint::UDPEndpoint;
 use crate::common::{alc, fdtinstance::FdtInstance, lct};
 use crate::{receiver::writer::ObjectMetadata, tools};
 use crate::{receiver::writer::ObjectWriter, tools::error::Result};
+use std::time::Instant;
 use std::{cell::RefCell, rc::Rc, time::SystemTime};
 
 #[derive(Clone, Copy, PartialEq, Debug)]
@@ -126,6 +127,13 @@ impl FdtReceiver {
                 objectreceiver::State::Error => self.inner.borrow_mut().state = FDTState::Error,
             }
         }
+    }
+
+    /// Time elapsed since the last packet of an FDT instance that is still being received
+    pub fn last_activity_duration_since(&self, earlier: Instant) -> Option<std::time::Duration> {
+        self.obj
+            .as_ref()
+            .map(|obj| obj.last_activity_duration_since(earlier))
     }
 
     pub fn get_server_time(&self, now: std::time::SystemTime) -> std::time::SystemTime {
